@@ -47,6 +47,16 @@ fn cons_hist<const N: usize>(empty: bool, ops: &[u8]) -> String {
                 drop(cur.as_ref().unwrap().clone());
                 res = "ok".to_string();
             }
+            b'0'..=b'9' => {
+                // `E::clone` panics on its j-th call inside `ArrayConsumer::clone`; unwinding drops the
+                // half-built clone; the original is only borrowed
+                elog::arm_clone_panic((op - b'0') as u32);
+                let c = cur.as_ref().unwrap();
+                let r = catch_unwind(AssertUnwindSafe(|| c.clone()));
+                elog::disarm_clone_panic();
+                res = if r.is_ok() { "ok" } else { "panic" }.to_string();
+                drop(r);
+            }
             b'd' => {
                 drop(cur.take());
                 fin = "d".to_string();
@@ -95,6 +105,13 @@ fn cons_hist_ref(n: usize, empty: bool, ops: &[u8]) -> String {
             b'k' => {
                 drop(cur.clone());
                 res = "ok".to_string();
+            }
+            b'0'..=b'9' => {
+                elog::arm_clone_panic((op - b'0') as u32);
+                let r = catch_unwind(AssertUnwindSafe(|| cur.clone()));
+                elog::disarm_clone_panic();
+                res = if r.is_ok() { "ok" } else { "panic" }.to_string();
+                drop(r);
             }
             b'd' => {
                 cur.clear();
@@ -182,6 +199,35 @@ pub fn run(tier: &str, _seed: u64, out: &mut Out) {
     }
     // a longer array: alternating ends
     for h in [&b"fbfbfbd"[..], b"ffffffe", b"bbbbbbe", b"fbfcbfbd", b"bbkffg", b"ffbbffbbe"] {
+        let imp = cons_hist::<6>(false, h);
+        let ora = cons_hist_ref(6, false, h);
+        out.emit(&format!("cons.hist new 6 {}", String::from_utf8_lossy(h)), &imp, &ora, true);
+    }
+    // an element `Clone` that PANICS on its j-th call inside `ArrayConsumer::clone` (letters 0..3; j beyond the
+    // remaining slice = the clone completes and is dropped), mixed with takes and ordinary clones
+    let pdepth = if tier == "thorough" { 5 } else if tier == "small" { 2 } else { 4 };
+    for n in 0..=4usize {
+        let mut alpha: Vec<u8> = b"fbc".to_vec();
+        for j in 0..=n.min(3) {
+            alpha.push(b'0' + j as u8);
+        }
+        for h in histories(&alpha, b"dge", pdepth) {
+            if !h.iter().any(|c| c.is_ascii_digit()) {
+                continue;
+            }
+            let imp = with_n!(n, cons_hist, false, &h);
+            let ora = cons_hist_ref(n, false, &h);
+            out.emit(&format!("cons.hist new {} {}", n, String::from_utf8_lossy(&h)), &imp, &ora, true);
+        }
+    }
+    for h in [&b"0d"[..], b"1d", b"f0e", b"2g"] {
+        for n in [0usize, 2, 4] {
+            let imp = with_n!(n, cons_hist, true, h);
+            let ora = cons_hist_ref(n, true, h);
+            out.emit(&format!("cons.hist empty {} {}", n, String::from_utf8_lossy(h)), &imp, &ora, true);
+        }
+    }
+    for h in [&b"5d"[..], b"ff3bd", b"fb0f3e", b"4c2g", b"bbb2fd"] {
         let imp = cons_hist::<6>(false, h);
         let ora = cons_hist_ref(6, false, h);
         out.emit(&format!("cons.hist new 6 {}", String::from_utf8_lossy(h)), &imp, &ora, true);
